@@ -954,7 +954,7 @@ impl ServerSim {
                         kind = Some((*l, *n));
                     }
                 }
-                MEvent::Continue(_) => {}
+                MEvent::Continue(_) => c.exp_100 += 1,
             }
         }
         if err || m.unspecified {
@@ -1403,6 +1403,14 @@ impl ServerSim {
                             ));
                         }
                     }
+                }
+                // interim responses: exactly one 100 per qualifying header block the server has read
+                let got100 = cl.resps.iter().filter(|r| r.code == 100).count();
+                if got100 != cl.exp_100 {
+                    return Err(self.v(
+                        "wrong-number-of-100s",
+                        format!("client {} received {} 100-continue response(s); {} header block(s) it sent qualify for one", id, got100, cl.exp_100),
+                    ));
                 }
                 let want: Vec<String> = cl.responded.iter().map(|r| r.0.clone()).filter(|t| t != "untagged").collect();
                 if cl.got_tags != want {
